@@ -6,7 +6,7 @@
    (rterr <=> "Laufzeitfehler" + exit 1, otherwise exit 0); when the program reaches an unspecified corner only
    the output up to that point is compared.  Expected outputs of disagreeing events are printed.  *)
 EXTENDS DDPSem, Json
-CONSTANTS TraceFile, Fuel
+CONSTANTS TraceFile, Fuel, Plan      \* Plan: only classify programs (ok / rterr / unspec), nothing observed yet
 VARIABLES l, exp, bad, nunspec
 Trace == ndJsonDeserialize(TraceFile)
 Init == l = 1 /\ exp = [out |-> <<>>, sig |-> "ok"] /\ bad = {} /\ nunspec = 0
@@ -14,6 +14,8 @@ IsPrefix(a, b) == Len(a) <= Len(b) /\ SubSeq(b, 1, Len(a)) = a
 Prog == /\ Trace[l].e = "prog"
         /\ exp' = Run(Trace[l].p, Fuel)
         /\ nunspec' = nunspec + (IF exp'.sig = "unspec" THEN 1 ELSE 0)
+        /\ (IF exp'.sig = "unspec" /\ ~Plan THEN PrintT(<<"@@unspecat@@", l, exp'.sig, exp'.out>>) ELSE TRUE)
+        /\ (IF Plan THEN PrintT(<<"@@sig@@", l, exp'.sig>>) ELSE TRUE)
         /\ UNCHANGED bad
 Obs == /\ Trace[l].e = "obs"
        /\ LET ev == Trace[l]
